@@ -37,5 +37,6 @@ def run(eng, ctx):
     from . import C11 as SOCKET
 
     SOCKET.run(eng, ctx)
-    ctx.instance("read-primitive call sites", len(eng.res.callers_of(eng.read_primitive)), 7)
+    nsites = sum(1 for q in eng.functions_reaching(eng.read_primitive) for e in eng.symeval(q).effects if e.kind == "call" and e.term[2] == ("attr", ("self",), eng.read_primitive.rsplit(".", 1)[1]))
+    ctx.instance("read-primitive call sites", nsites, 7)
     ctx.assume("the underlying stream's read(n) returns at most n bytes, in stream order")
